@@ -63,7 +63,9 @@ def setup(rec, tier):
     def sp2(s):
         # the core is the convex polygon spanned by the vertex *set*: A and P do not depend on how the caller listed it
         # (nor on the order coxeter stores), so the cycle is rebuilt here by sorting about the normal
-        E = geom.poly3d_exact(geom.convex_cycle(np.asarray(s.vertices, float), np.asarray(s.normal, float)), np.asarray(s.normal, float))
+        n_ = np.asarray(s.normal, float)
+        n_ = n_ / np.linalg.norm(n_)         # only the side it points to is taken from the shape
+        E = geom.poly3d_exact(geom.convex_cycle(np.asarray(s.vertices, float), n_), n_)
         r = float(s.radius)
         return E, r
 
@@ -243,15 +245,32 @@ def run_case(i, rng, rec, tier, state):
             V = np.roll(V[::-1] if rng.random() < 0.5 else V, int(rng.integers(len(V))), axis=0)
             rec.cls("listing:boundary")
         tilted = rng.random() < 0.5
+        pn = np.array([0.0, 0.0, 1.0])
         if tilted:
-            V = V @ gen.random_rotation(rng).T + rng.uniform(-3, 3, size=3)
+            R_ = gen.random_rotation(rng)
+            V = V @ R_.T + rng.uniform(-3, 3, size=3)
+            pn = R_ @ pn
         else:
             V[:, :2] += rng.uniform(-3, 3, size=2)
         r = _radius(rng, gen.diameter(V))
         rec.cls("sphero2d")
         rec.cls("radius:0" if r == 0 else "radius:>0")
+        # the plane normal as a caller may state it: not at all, or either side of the plane, of any length (the raw cross
+        # product of two edges, an axis times two ...) - the documented argument only has to be perpendicular to the polygon
+        kw = {}
+        un = rng.random()
+        if un < 0.5:
+            nv = pn * float(rng.choice([-1.0, 1.0]))
+            if un < 0.3:
+                nv = nv * float(np.exp(rng.uniform(-2.5, 2.5)))
+                rec.cls("normal-argument:not-unit-length")
+            else:
+                rec.cls("normal-argument:unit")
+            kw["normal"] = nv if rng.random() < 0.5 else [float(x) for x in nv]
+        else:
+            rec.cls("normal-argument:none")
         try:
-            s = cs.ConvexSpheropolygon(V.copy(), r)
+            s = cs.ConvexSpheropolygon(V.copy(), r, **kw)
         except Exception as e:
             rec.note("construct-failed (judged by C15): " + type(e).__name__)
             return
